@@ -68,6 +68,21 @@ def run(prog, chk):
             raise AnalysisBroken("hinted insert: the node of the position iterator is not read into a local")
         P = pos_name
         total, bad = 0, []
+        # the table below speaks of `prev` and `next` as the neighbours of the hint in the threaded list: that is what they have to be
+        wrong = None
+        for n in f.nodes:
+            if n["k"] == "DeclStmt":
+                for d in n["decls"]:
+                    if d["n"] in ("prev", "next") and d.get("init") is not None:
+                        it_ = q.no_casts(q.xr(f, d["init"])).strip("()")
+                        if it_ not in ("%s->%s" % (P, d["n"]), "position.item->%s" % d["n"], "this->endItem.%s" % d["n"], "&this->endItem->%s" % d["n"]):
+                            wrong = (n["i"], d["n"], q.no_casts(f.r(d["init"])))
+        if wrong:
+            chk.bad("C01.e", f, "hint-neighbour-not-from-list:" + wrong[1], f.where(wrong[0]),
+                    "%s hinted insert validates the hint against `%s = %s`; the order of the keys is the order of the threaded list, so the "
+                    "neighbour has to be `%s->%s` (a tree child is null whenever the neighbour is an ancestor, and the test then admits "
+                    "any key)" % (cls, wrong[1], wrong[2], P, wrong[1]), evals=1)
+            continue
         # keys of the neighbours: prev <= pos <= next (strict for Map); key ranges over all gaps and ties
         neigh = [(10, 20, 30)] + ([(20, 20, 30), (10, 20, 20), (20, 20, 20)] if multi else [])
         for pk, ck, nk in neigh:
